@@ -42,6 +42,12 @@ CHECKS = {
  "C16": dict(level="exploration", ref="5 C16", tech="bounded-exhaustive enumeration of PEG-request multisets and placements through the real pipeline against the proportional-share / refund bounds",
    text="Every multiset of up to 3 (thorough 4) PEG requests over 7 sizes around the bank and two source assets, as separate entries / one batch / spread over an ungraded block, in the per-height era, the pooled era and across the fork between them (about 2,000 chains): bank bound, full or proportional yield with dust, refund formula and value bound, balance deltas and the bank table row.",
    note="Rates as recorded; one requesting address."),
+ "C11": dict(level="exploration", ref="5 C11", tech="bounded-exhaustive enumeration of OPR/SPR record sets and factoid transactions through the real pipeline, compared with the grader libraries' verdict on the eligible records",
+   text="Per grading era (OPR v1-v5, SPR S1-S3): record sets of {0, W-1, W, W+1, 51} valid records with noise, mixed with every kind of invalid record, consecutive blocks with ungraded and winner-less blocks between, SPR sets whose declared staker is a top-100 holder / holder #101 / a non-holder signed by that holder's key or another key, duplicate payout addresses, a pre-2.0.2 band conflict, and factoid blocks over the burn-shape alphabet: every address's PEG / pFCT delta must equal the rewards the grader library assigns to the eligible records plus valid burns.",
+   note="The grader libraries are the definition of winners and rewards. Staker/signature binding and the band-conflict skip are open known findings."),
+ "C12": dict(level="exploration", ref="5 C12", tech="bounded-exhaustive enumeration of winner combinations and band relations per era through the real pipeline against a reference band filter; immutability invariant on every transition",
+   text="In 8 eras: OPR winners absent/too few/present x SPR winners absent/too few/ineligible/present, every in-band relation spread over the assets, one block per (representative asset, edge-1/edge/edge+1/edge+2/far outside on both sides), PEG price zero / equation (from an empty ledger and with supply) / floating; recorded rows must equal the reference band filter (rows within one unit of an exact edge accept either verdict), a winner-less block records nothing and executes no waiting conversion, and after every committed block earlier heights' rows are unchanged.",
+   note="Before 2.0.2 an out-of-band pair is treated as a conflict for which 'no rates' is admissible."),
 }
 
 NOT_YET = {}
